@@ -22,19 +22,20 @@ const modPath = "github.com/titpetric/vuego"
 
 // Prog is the resolved program every rule works on: type-checked syntax, SSA and a VTA call graph.
 type Prog struct {
-	Repo    string
-	Fset    *token.FileSet
-	Pkgs    []*packages.Package // packages of the module, sorted by path
-	PkgBy   map[string]*packages.Package
-	SSA     *ssa.Program
-	Funcs   []*ssa.Function // every function of the module (methods, closures), sorted by name
-	Inits   []*ssa.Function // synthetic package initialisers of the module packages
-	Renamed []string        // roles that were bound to a differently named function (see roles.go)
-	Inlined    []string     // helper calls replaced by the helper's body (see inline.go)
-	NotInlined []string     // new functions that stay calls, with the reason
-	byName  map[string]*ssa.Function
-	CG      *callgraph.Graph
-	astDecl map[*ssa.Function]*ast.FuncDecl
+	Repo       string
+	Fset       *token.FileSet
+	Pkgs       []*packages.Package // packages of the module, sorted by path
+	PkgBy      map[string]*packages.Package
+	SSA        *ssa.Program
+	Funcs      []*ssa.Function        // every function of the module (methods, closures), sorted by name
+	Inits      []*ssa.Function        // synthetic package initialisers of the module packages
+	Renamed    []string               // roles that were bound to a differently named function (see roles.go)
+	Inlined    []string               // helper calls replaced by the helper's body (see inline.go)
+	NotInlined []string               // new functions that stay calls, with the reason
+	Dropped    map[*ssa.Function]bool // helpers whose every call was replaced by their body: not part of the program any more
+	byName     map[string]*ssa.Function
+	CG         *callgraph.Graph
+	astDecl    map[*ssa.Function]*ast.FuncDecl
 }
 
 // UndecidedError aborts a run without a verdict (exit 2, never a VIOLATION).
@@ -196,6 +197,9 @@ func (p *Prog) Cone(roots ...*ssa.Function) map[*ssa.Function]bool {
 	seen := map[*ssa.Function]bool{}
 	var work []*ssa.Function
 	push := func(f *ssa.Function) {
+		if f != nil && p.Dropped[rootFunc(f)] {
+			return
+		}
 		if f != nil && !seen[f] {
 			seen[f] = true
 			work = append(work, f)
@@ -248,6 +252,9 @@ func (p *Prog) Callers(fn *ssa.Function) []ssa.CallInstruction {
 		for _, e := range n.In {
 			if e.Site == nil {
 				continue
+			}
+			if p.Dropped[rootFunc(e.Caller.Func)] {
+				continue // a fully inlined helper: its body lives on in its callers
 			}
 			if pk := funcPkg(e.Caller.Func); pk != nil && strings.HasPrefix(pk.Path(), modPath) {
 				out = append(out, e.Site)
